@@ -201,6 +201,14 @@ class Check:
         rc, out, err = sh(["cargo", "build", "--release", "--offline"], cwd=d, timeout=3600)
         if rc != 0:
             raise RuntimeError("cargo build of harness %s failed:\n%s" % (name, err[-6000:]))
+        if name == "rt":
+            # the same harness without debug assertions and overflow checks (an optimised dependent build): the
+            # runtime crate must behave the same in both
+            if last != h:
+                sh(["cargo", "clean", "--profile", "nodebug", "--offline", "-p", "assert-struct", "-p", "assert-struct-macros"], cwd=d)
+            rc, out, err = sh(["cargo", "build", "--profile", "nodebug", "--offline"], cwd=d, timeout=3600)
+            if rc != 0:
+                raise RuntimeError("cargo build of harness rt (profile nodebug) failed:\n%s" % err[-6000:])
         open(stamp, "w").write(h)
         return os.path.join(CACHE, "target", name, "release")
 
@@ -215,8 +223,8 @@ class Check:
             raise RuntimeError("lean driver answered %d lines for %d requests" % (len(res), len(lines)))
         return res
 
-    def rt_batch(self, lines, binary="rt", harness="rt", cwd=None, env=None):
-        exe = os.path.join(CACHE, "target", harness, "release", binary)
+    def rt_batch(self, lines, binary="rt", harness="rt", cwd=None, env=None, profile="release"):
+        exe = os.path.join(CACHE, "target", harness, profile, binary)
         rc, out, err = sh([exe], inp="\n".join(lines) + "\n", timeout=3600, cwd=cwd, env=env)
         if rc != 0:
             raise RuntimeError("harness %s failed (rc=%s): %s" % (binary, rc, err[-2000:]))
